@@ -483,3 +483,61 @@ Definition ex_ops : list op :=
    WtEnd 5 (WData 30); Drain true; Tick 2000; Expire].
 Definition ex_lops : list (lop * Z) :=
   [(LAdd 0 0%Z, 0%Z); (LAdd 1 1%Z, 1%Z); (LAdd 0 2%Z, 2%Z)].
+
+(* ================================================================================== *)
+(*  Part 5: lock-convoy pairs — two operations started concurrently on one object      *)
+(* ================================================================================== *)
+(* The driver holds the object's mutex, starts two calls in goroutines, lets them queue on the
+   lock and releases it. If every method is one atomic lock region the outcome is that of one
+   of the two sequential orders (linearisability of a pair). *)
+Definition snap_eqb (a b : N * list (N * N)) : bool := N.eqb (fst a) (fst b) && set_eqP (snd a) (snd b).
+
+Definition lin (s : st) (x y : op) (rx ry : out) (fin : N * list (N * N)) : bool :=
+  let '(s1, o1) := step true s x in
+  let '(s2, o2) := step true s1 y in
+  out_eqb o1 rx && out_eqb o2 ry && snap_eqb (snap s2) fin.
+
+Definition pair_agrees (max : N) (pre : list op) (preobs : list obs_t) (a b : op) (ra rb : out)
+           (fin : N * list (N * N)) : bool :=
+  let '(s, obs) := run true (init max 0 0) pre in
+  obss_eqb obs preobs && (lin s a b ra rb fin || lin s b a rb ra fin).
+
+(* ghost reservations after an observed prefix *)
+Fixpoint gfold (g : list (N * phase)) (ops : list op) (obs : list obs_t) : list (N * phase) :=
+  match ops, obs with
+  | o :: ops', x :: obs' => gfold (gstep g o (fst x)) ops' obs'
+  | _, _ => g
+  end.
+
+(* the property on an observed pair: the prefix satisfies it and the final state balances and is
+   within budget (ghost rebuilt from the two answers; the order of the two ghost updates is free) *)
+Definition C13_pair_check (max : N) (pre : list op) (preobs : list obs_t) (a b : op) (ra rb : out)
+           (fin : N * list (N * N)) : bool :=
+  if proto max (pre ++ [a; b]) then
+    check_from max [] 0 pre preobs &&
+    (let g := gfold [] pre preobs in
+     obs_ok max (gstep (gstep g a ra) b rb) (OUnit, fin) || obs_ok max (gstep (gstep g b rb) a ra) (OUnit, fin))
+  else true.
+
+(* LRU pairs *)
+Definition lsnap_eqb (a b : N * list N) : bool := N.eqb (fst a) (fst b) && set_eqN (snd a) (snd b).
+Definition llin (c : lru) (x y : lop) (at_ : Z) (rx ry : out) (fin : N * list N) : bool :=
+  let '(c1, o1) := lstep c x in
+  let '(c2, o2) := lstep c1 y in
+  out_eqb o1 rx && out_eqb o2 ry && lsnap_eqb (lsnap c2 at_) fin.
+Definition lpair_agrees (size ttl : Z) (pre : list (lop * Z)) (preobs : list lobs_t) (a b : lop) (at_ : Z)
+           (ra rb : out) (fin : N * list N) : bool :=
+  let '(c, obs) := lrun (linit size ttl) pre in
+  lobss_eqb obs preobs && (llin c a b at_ ra rb fin || llin c b a at_ rb ra fin).
+
+Definition C13_lru_pair_check (size ttl : Z) (pre : list (lop * Z)) (preobs : list lobs_t) (a b : lop) (at_ : Z)
+           (fin : N * list N) : bool :=
+  let c := linit size ttl in
+  if (0 <? l_size c)%Z && ltimes_ok pre then
+    lcheck_from (l_size c) (l_ttl c) [] 0 [] pre preobs &&
+    (Z.of_N (fst fin) <=? l_size c)%Z &&
+    (let g := ghost [] 0 (map fst pre) in
+     let i := N.of_nat (length pre) in
+     forallb (may_report (l_ttl c) (tstep (tstep g i a) (i + 1) b) at_) (snd fin)
+     || forallb (may_report (l_ttl c) (tstep (tstep g i b) (i + 1) a) at_) (snd fin))
+  else true.
